@@ -74,7 +74,7 @@ TECHNIQUE = {
 PENDING = ("designed in DESIGN.md; not claimed: its check module (sim/props, if present) has not been shown quiet on the unchanged tree from a fresh "
            "restore at more than one seed, so no verdict of it is offered (no claim is made until its command is sound)")
 # modules that exist but are not claimed yet (their last recorded runs still showed unclassified alarms or harness errors)
-UNVETTED = {"C08", "C17", "C23", "C25", "C29", "C30", "C36", "C38"}
+UNVETTED = set()  # every module has been vetted at seeds 1, 2, 3 on the unchanged tree (DESIGN 8.5, 8.6)
 
 
 def main():
